@@ -18,6 +18,7 @@ type Options struct {
 	WithCap   bool                  // include slice elements between len and cap
 	SkipTypes map[reflect.Type]bool // values of these types are rendered as "<skipped>"
 	SkipNames map[string]bool       // struct fields with these names are skipped
+	SkipPkgs  map[string]bool       // named types declared in these packages are rendered as "<skipped>" (e.g. "sync": runtime-managed, internally synchronised state whose bits change with GC and scheduling)
 }
 
 type walker struct {
@@ -61,7 +62,7 @@ func (w *walker) walk(v reflect.Value, depth int) {
 		w.tag("<deep>")
 		return
 	}
-	if w.o.SkipTypes[v.Type()] {
+	if w.o.SkipTypes[v.Type()] || (len(w.o.SkipPkgs) > 0 && v.Type().PkgPath() != "" && w.o.SkipPkgs[v.Type().PkgPath()]) {
 		w.tag("<skipped " + v.Type().String() + ">")
 		return
 	}
